@@ -157,6 +157,7 @@ class FusionART(BaseART):
                 ]
             else:
                 self.modules[k].W = []
+                self.modules[k].weight_sample_counter_ = []
 
     @staticmethod
     def validate_params(params: Dict):
@@ -624,6 +625,7 @@ class FusionART(BaseART):
         - new_w: new cluster weight to add
 
         """
+        self.weight_sample_counter_.append(1)
         for k in range(self.n):
             new_w_k = new_w[self._channel_indices[k][0] : self._channel_indices[k][1]]
             self.modules[k].add_weight(new_w_k)
@@ -636,6 +638,7 @@ class FusionART(BaseART):
         - new_w: new cluster weight
 
         """
+        self.weight_sample_counter_[idx] += 1
         for k in range(self.n):
             new_w_k = new_w[self._channel_indices[k][0] : self._channel_indices[k][1]]
             self.modules[k].set_weight(idx, new_w_k)
